@@ -255,6 +255,26 @@ def run(ctx: Any, prog: Program) -> None:
                 if isinstance(m, ast.If) and "!= 'worldspawn'" in ast.unparse(m.test) and any(isinstance(x, ast.Raise) for x in m.body):
                     ok = True
     ctx.check('C07.I4', ok, vm, si, 'the classname arm must refuse (raise) any class but worldspawn for the map spawn', text='spawn re-class refused')
+    # the refusal happens after the old by_class entry was removed: before raising, the spawn must be registered again, either by
+    # re-entering __setitem__ (self['classname'] = 'worldspawn') or by an explicit by_class['worldspawn'].add(self) next to the key-store revert
+    for n in walk_no_nested(si):
+        if isinstance(n, ast.If) and 'self is self.map.spawn' in ast.unparse(n.test):
+            for m in ast.walk(n):
+                if isinstance(m, ast.If) and "!= 'worldspawn'" in ast.unparse(m.test) and any(isinstance(x, ast.Raise) for x in m.body):
+                    before = []
+                    for st in m.body:
+                        if isinstance(st, ast.Raise):
+                            break
+                        before.append(st)
+                    via_setitem = any(isinstance(st, ast.Assign) and isinstance(st.targets[0], ast.Subscript) and dotted(st.targets[0].value) == 'self' and isinstance(st.targets[0].slice, ast.Constant)
+                                      and str(st.targets[0].slice.value).casefold() == 'classname' and isinstance(st.value, ast.Constant) and str(st.value.value).casefold() == 'worldspawn' for st in before)
+                    explicit = any(isinstance(c, ast.Call) and isinstance(c.func, ast.Attribute) and c.func.attr == 'add' and isinstance(c.func.value, ast.Subscript) and index_of(c.func.value.value) == 'by_class'
+                                   and isinstance(c.func.value.slice, ast.Constant) and c.func.value.slice.value == 'worldspawn' and [dotted(a) for a in c.args] == ['self'] for st in before for c in ast.walk(st))
+                    keys_revert = any(isinstance(st, ast.Assign) and isinstance(st.targets[0], ast.Subscript) and dotted(st.targets[0].value) == 'self._keys' and isinstance(st.value, ast.Constant)
+                                      and str(st.value.value).casefold() == 'worldspawn' for st in before)
+                    ctx.check('C07.I4', via_setitem or (explicit and keys_revert), vm, m, 'the refused re-class of the map spawn raises after the old by_class entry was removed: before the raise the classname must be '
+                              "reverted AND the spawn re-registered in by_class['worldspawn'] (found: " + ('key store reverted only' if keys_revert else ('index entry only' if explicit else 'neither')) + ')',
+                              text='spawn re-registered before the refusal is raised')
     di = ent_methods['__delitem__']
     raise_line = None
     for n in walk_no_nested(di):
@@ -264,6 +284,56 @@ def run(ctx: Any, prog: Program) -> None:
             and isinstance(n.func.value, ast.Attribute) and n.func.value.attr == '_keys']
     ctx.check('C07.I4', raise_line is not None and all(raise_line < p for p in pops), vm, di,
               'Entity.__delitem__ must refuse to delete classname before it touches the key store', text='classname deletion refused')
+    # ---- I9: search() consults both indexes for a plain name ------------------------------------------------------------------------
+    sf = vmf_methods['search']
+    ctx.rule('C07.I9', 'search(): a plain name yields the by_target matches and the by_class matches (neither hides the other); a trailing * searches by_target by prefix', floor=3)
+    star = [n for n in sf.body if isinstance(n, ast.If) and "'*'" in ast.unparse(n.test)]
+    ctx.shape('C07.I9', len(star) == 1 and bool(star[0].orelse), vm, sf, "search() branches on a trailing '*' with an else arm for plain names", text='search wildcard split')
+    if len(star) == 1 and star[0].orelse:
+        def index_mentions(node: ast.AST) -> Set[str]:
+            return {a.attr for a in ast.walk(node) if isinstance(a, ast.Attribute) and a.attr in INDEXES}
+        # locals derived from an index (loop targets over by_target.items(), assignments)
+        derived: dict = {}
+        changed = True
+        while changed:
+            changed = False
+            for n in ast.walk(sf):
+                srcs: Set[str] = set()
+                tg: List[ast.AST] = []
+                if isinstance(n, ast.For):
+                    srcs, tg = index_mentions(n.iter), [n.target]
+                elif isinstance(n, ast.Assign):
+                    srcs, tg = index_mentions(n.value), list(n.targets)
+                    if any(isinstance(o, ast.BoolOp) and isinstance(o.op, ast.Or) and len(index_mentions(o)) == 2 for o in ast.walk(n.value)):
+                        ctx.check('C07.I9', False, vm, n, f'`{ast.unparse(n)[:80]}` picks the by_class matches only when no entity has that targetname: a name that is both a targetname and a classname '
+                                  'loses its classname matches', text='search: indexes combined with `or`')
+                else:
+                    continue
+                if isinstance(n, ast.Assign):
+                    for x in ast.walk(n.value):
+                        if isinstance(x, ast.Name) and x.id in derived:
+                            srcs = srcs | derived[x.id]
+                for t in tg:
+                    for e in ast.walk(t):
+                        if isinstance(e, ast.Name) and not srcs <= derived.get(e.id, set()):
+                            derived[e.id] = derived.get(e.id, set()) | srcs
+                            changed = True
+        def yielded_from(stmts: List[ast.stmt]) -> Set[str]:
+            out: Set[str] = set()
+            for st in stmts:
+                for y in ast.walk(st):
+                    if isinstance(y, (ast.YieldFrom, ast.Yield)) and y.value is not None:
+                        out |= index_mentions(y.value)
+                        for x in ast.walk(y.value):
+                            if isinstance(x, ast.Name):
+                                out |= derived.get(x.id, set())
+            return out
+        plain = yielded_from(star[0].orelse)
+        for idx in INDEXES:
+            ctx.check('C07.I9', idx in plain, vm, star[0], f'search() of a plain name never yields entities from {idx}', text=f'search plain name yields {idx}')
+        ctx.check('C07.I9', 'by_target' in yielded_from(star[0].body), vm, star[0], 'search() of `name*` never yields entities from by_target', text='search wildcard yields by_target')
+        for y in [y for st in star[0].orelse for y in ast.walk(st) if isinstance(y, ast.YieldFrom)]:
+            ctx.check('C07.I9', not (isinstance(y.value, ast.BoolOp) and len(index_mentions(y.value)) == 2), vm, y, 'one `yield from a or b` over both indexes hides the second index whenever the first matches', text='search: indexes combined with `or`')
     # ---- I5 --------------------------------------------------------------------------------------------
     ci = vm.func('CopySet.__iter__')
     body = [s for s in ci.body if not (isinstance(s, ast.Expr) and isinstance(s.value, ast.Constant))]
@@ -295,6 +365,11 @@ def run(ctx: Any, prog: Program) -> None:
 
 
 MUTANTS = [
+    {'id': 'search_classname_only_if_no_targetname', 'file': 'vmf.py', 'find': "            if name in list(self.by_class):\n                yield from self.by_class[name]", 'replace': "            yield from (self.by_target.get(name) or self.by_class.get(name) or ())", 'expect': 'C07.I9'},
+    {'id': 'search_drops_classname_lookup', 'file': 'vmf.py', 'find': "            if name in list(self.by_class):\n                yield from self.by_class[name]", 'replace': "            pass", 'expect': 'C07.I9'},
+    {'id': 'search_class_via_get', 'file': 'vmf.py', 'find': "            if name in list(self.by_class):\n                yield from self.by_class[name]", 'replace': "            yield from self.by_class.get(name, ())", 'expect': None},
+    {'id': 'spawn_revert_key_store_only', 'file': 'vmf.py', 'find': "                    self['classname'] = 'worldspawn'  # Revert the change.", 'replace': "                    self._keys[key] = 'worldspawn'", 'expect': 'C07.I4'},
+    {'id': 'spawn_revert_explicit_both', 'file': 'vmf.py', 'find': "                    self['classname'] = 'worldspawn'  # Revert the change.", 'replace': "                    self._keys[key] = 'worldspawn'\n                    self.map.by_class['worldspawn'].add(self)", 'expect': None},
     {'id': 'add_ents_generator', 'file': 'vmf.py', 'find': "        ents = list(ents)\n        self.entities.extend(ents)", 'replace': "        self.entities.extend(ents)", 'expect': 'C07.I7'},
     {'id': 'orig_val_hoisted', 'file': 'vmf.py', 'find': "        key_fold = key.casefold()\n        for k in self._keys:\n            if k.casefold() == key_fold:\n                # Check case-insensitively for this key first\n                orig_val = self._keys.get(k)", 'replace': "        key_fold = key.casefold()\n        orig_val = self._keys.get(key)\n        for k in self._keys:\n            if k.casefold() == key_fold:\n                # Check case-insensitively for this key first", 'expect': 'C07.I8'},
     {'id': 'add_ent_unfolded', 'file': 'vmf.py', 'find': "        self.by_class[item['classname', ''].casefold()].add(item)", 'replace': "        self.by_class[item['classname', '']].add(item)", 'expect': 'C07.I1'},
